@@ -232,4 +232,66 @@ theorem squeeze_far_commute {ds s : DSetData} (hv : ValidSet ds) (hdim : ds.dim 
   · rw [c02 _ rg.1 rg.2, i0d, c02 e he1 he2]; exact p5
   · rw [c02 _ rg.1 rg.2, i0d, c02 e he1 he2]; exact p4
 
+
+/-- the re-gluing of `fix_local_1_vertex` and `fix_non_disk_face`: the corners at `d` and `e` (and
+    their 3-neighbours) exchange their 1-neighbours -/
+theorem cornerGlue_far_commute {ds s : DSetData} (hv : ValidSet ds) (hdim : ds.dim = 3) (hf : FarCommute ds)
+    {d e : Nat} (hd1 : 1 ≤ d) (hd2 : d ≤ ds.size) (he1 : 1 ≤ e) (he2 : e ≤ ds.size)
+    (hnd : [d, ds.opU 1 e, e, ds.opU 1 d, ds.opU 3 d, ds.opU 1 (ds.opU 3 e), ds.opU 3 e, ds.opU 1 (ds.opU 3 d)].Nodup)
+    (h : reglue ds [(d, ds.opU 1 e), (e, ds.opU 1 d), (ds.opU 3 d, ds.opU 1 (ds.opU 3 e)),
+      (ds.opU 3 e, ds.opU 1 (ds.opU 3 d))] 1 = .ok (some s)) :
+    ValidSet s ∧ s.size = ds.size ∧ s.dim = ds.dim ∧ FarCommute s := by
+  obtain ⟨sv, hs1, hs2, _⟩ := reglue_ok_valid hv h
+  refine ⟨sv, hs1, hs2, ?_⟩
+  obtain ⟨⟨p0, p1, p2, p3, p4, p5, p6, p7⟩, pall⟩ := pairedGet_four hnd
+  have rf := hv.range 3 d (by omega) hd1 hd2
+  have rg := hv.range 3 e (by omega) he1 he2
+  have i3d := hv.invol 3 d (by omega) hd1 hd2
+  have i3e := hv.invol 3 e (by omega) he1 he2
+  have c13 : ∀ x, 1 ≤ x → x ≤ ds.size → ds.opU 3 (ds.opU 1 x) = ds.opU 1 (ds.opU 3 x) :=
+    fun x h1 h2 => hf 1 3 x (by omega) (by omega) h1 h2
+  apply reglue_far_commute hv hf h (by omega)
+  intro k hk hk2 x y hx1 hx2 hxy
+  have hk3 : k = 3 := by omega
+  subst hk3
+  rcases pall x y hxy with ⟨rfl, rfl⟩ | ⟨rfl, rfl⟩ | ⟨rfl, rfl⟩ | ⟨rfl, rfl⟩ | ⟨rfl, rfl⟩ | ⟨rfl, rfl⟩ |
+    ⟨rfl, rfl⟩ | ⟨rfl, rfl⟩
+  · rw [c13 e he1 he2]; exact p4
+  · rw [c13 e he1 he2]; exact p5
+  · rw [c13 d hd1 hd2]; exact p6
+  · rw [c13 d hd1 hd2]; exact p7
+  · rw [i3d, c13 _ rg.1 rg.2, i3e]; exact p0
+  · rw [i3d, c13 _ rg.1 rg.2, i3e]; exact p1
+  · rw [i3e, c13 _ rf.1 rf.2, i3d]; exact p2
+  · rw [i3e, c13 _ rf.1 rf.2, i3d]; exact p3
+
+/-- **`fix_non_disk_face`'s re-gluing keeps a complete D-set with commuting far operations** -/
+theorem nonDiskGlue_far_commute {ds s : DSetData} (hv : ValidSet ds) (hdim : ds.dim = 3) (hf : FarCommute ds)
+    {d e : Nat} (hd1 : 1 ≤ d) (hd2 : d ≤ ds.size) (he1 : 1 ≤ e) (he2 : e ≤ ds.size)
+    (hnd : [d, ds.opU 1 e, e, ds.opU 1 d, ds.opU 3 d, ds.opU 1 (ds.opU 3 e), ds.opU 3 e, ds.opU 1 (ds.opU 3 d)].Nodup)
+    (h : nonDiskGlue ds d e = .ok (some (.dset s))) :
+    ValidSet s ∧ s.size = ds.size ∧ s.dim = ds.dim ∧ FarCommute s := by
+  unfold nonDiskGlue at h
+  obtain ⟨f, hf', k1⟩ := bind_ok h
+  obtain ⟨g, hg', k2⟩ := bind_ok k1
+  obtain ⟨d1, hd1', k3⟩ := bind_ok k2
+  obtain ⟨e1, he1', k4⟩ := bind_ok k3
+  obtain ⟨f1, hf1', k5⟩ := bind_ok k4
+  obtain ⟨g1, hg1', k6⟩ := bind_ok k5
+  obtain ⟨out, hout, k7⟩ := bind_ok k6
+  clear h k1 k2 k3 k4 k5 k6
+  have vf := (opx_ok hf').2.2.2.1
+  have vg := (opx_ok hg').2.2.2.1
+  have vd1 := (opx_ok hd1').2.2.2.1
+  have ve1 := (opx_ok he1').2.2.2.1
+  subst vf vg vd1 ve1
+  have vf1 := (opx_ok hf1').2.2.2.1
+  have vg1 := (opx_ok hg1').2.2.2.1
+  subst vf1 vg1
+  have : out = s := by
+    have h' : (Outcome.ok (some (DOE.dset out)) : Step) = .ok (some (.dset s)) := k7
+    cases h'; rfl
+  subst this
+  exact cornerGlue_far_commute hv hdim hf hd1 hd2 he1 he2 hnd (reglueU_ok hout)
+
 end DSymVerif.Simp
